@@ -300,13 +300,13 @@ void harness_step(void)
 			VP_ASSERT(vp_retry_added == 1 || vp_row_calls == 1 || vp_deferred_sched == 1 || what == BEV_EVENT_CONNECTED,
 			    "C27: a request left uncompleted by an error event is being retried, read out, or the event was CONNECTED");
 		if (vp_nreq == 2 && vp_cb_calls[1] != 0)
-			VP_ASSERT(vp_retry_assigned == 0 && vp_evcon->state == EVCON_DISCONNECTED, "C27: the second request is completed only when the connection gives up all requests");
+			VP_ASSERT(vp_retry_assigned == 0 && (vp_bev_free_calls == 1 || vp_evcon->state == EVCON_DISCONNECTED), "C27: the second request is completed only when the connection gives up all requests");
 		VP_ASSERT(vp_cb_calls[1] <= 1, "C27: second request completed at most once");
 		if (vp_cb_calls[0] == 1 && vp_cb_null[0] == 1) VP_WITNESS("event failed the request");
 		if (vp_cb_calls[0] == 1 && vp_cb_null[0] == 0) VP_WITNESS("EOF completed a close-delimited response");
 		if (vp_cb_calls[0] == 0) VP_WITNESS("event left the request pending");
 	} else {
-		VP_ASSERT(vp_evcon->state == EVCON_DISCONNECTED || vp_bev_free_calls == 1, "C27: peer close on an idle persistent connection resets (or frees) it");
+		VP_ASSERT(vp_bev_free_calls == 1 || vp_evcon->state == EVCON_DISCONNECTED, "C27: peer close on an idle persistent connection resets (or frees) it");
 		VP_WITNESS("close detected on idle connection");
 	}
 	release_rest();
@@ -340,7 +340,7 @@ void harness_step(void)
 		} else {
 			VP_ASSERT(vp_retry_added == 0, "C27: no retry after the last attempt");
 			VP_ASSERT(vp_cb_calls[0] == 1 && (vp_nreq == 1 || vp_cb_calls[1] == 1), "C27: giving up: every queued request completes exactly once");
-			VP_ASSERT(TAILQ_FIRST(&vp_evcon->requests) == NULL || vp_bev_free_calls == 1, "C27: queue emptied");
+			VP_ASSERT(vp_bev_free_calls == 1 || TAILQ_FIRST(&vp_evcon->requests) == NULL, "C27: queue emptied");
 			VP_ASSERT((vp_bev_free_calls == 1) == (autofree != 0), "C27: auto-free connection freed after giving up");
 			VP_WITNESS("gave up, all requests completed");
 		}
